@@ -381,6 +381,35 @@ func genTEIBoundary(c *Ctx) {
 	}
 }
 
+// genTEIZeroReserve: `go` with clocks on positions whose side to move has NO flat stone left in reserve - only the
+// capstone (game still running), or nothing at all (the game ended by exhaustion): a clock rule that looks at the
+// reserve must not divide by it
+func genTEIZeroReserve(c *Ctx) {
+	type zr struct {
+		size int
+		tps  string
+	}
+	cases := []zr{
+		{5, "2,2,x,2,2/x5/x5/x5/1111111111,1111111111,1,x2 1 12"},
+		{5, "1,1,x,1,1/x5/x5/x5/2222222222,2222222222,2,x2 2 12"},
+		{3, "x3/x3/11111,11111,x 1 11"},
+		{3, "x3/x3/22222,22222,x 2 11"},
+		{4, "x4/x4/2,x3/11111,11111,11111,x 1 9"},
+		{6, "2,2,2,x3/x6/x6/x6/x6/1111111111,1111111111,1111111111,x3 1 17"},
+	}
+	gos := []string{"go wtime 60000 btime 60000", "go wtime 1000 btime 1000 winc 100 binc 100", "go wtime 5000", "go btime 5000", "go movetime 10 wtime 9000 btime 9000", "go"}
+	for i, z := range cases {
+		if i%c.NShard != c.Shard%len(cases) && c.NShard > 1 && i != c.Shard%len(cases) {
+			continue
+		}
+		for _, g := range gos {
+			cmds := []string{"teinewgame " + strconv.Itoa(z.size), "position tps " + z.tps, g, "isready"}
+			out := c.Emit(teiLine("tei", 1, joinStream(cmds, true)))
+			c.Count("tei.zero-reserve." + clip(out, 3))
+		}
+	}
+}
+
 func genTEIExtend(c *Ctx, n int) {
 	for i := 0; i < n; i++ {
 		s1 := 3 + c.R.Intn(4)
@@ -455,6 +484,7 @@ func genC17(c *Ctx) {
 	// `position` lines that EXTEND the previous one (what a GUI sends ply by ply), within a game and - the trap - across a
 	// `teinewgame` of another size: the new game's first line is the old game's last line plus moves
 	genTEIExtend(c, c.Scale(200, 12000))
+	genTEIZeroReserve(c)
 	// pipelined controllers: the same kind of streams handed over in chunks that ignore line boundaries (1 byte, a few
 	// bytes, everything at once), among them streams whose LAST command is fatal after several answered `go`s - what was
 	// written for the earlier commands must be there when Run returns
@@ -703,6 +733,7 @@ func malformedHistory(c *Ctx) ([]string, bool) {
 
 func genC13tei(c *Ctx) {
 	genTEIExtend(c, c.Scale(120, 8000))
+	genTEIZeroReserve(c)
 	n := c.Scale(6000, 600000)
 	for i := 0; i < n; i++ {
 		cmds, timing := malformedHistory(c)
